@@ -55,6 +55,21 @@ class ExtractCond(ast.NodeTransformer):
         return t
 
 
+class EarlyReturn(ast.NodeTransformer):
+    """`if c: A else: B` as the last statement of a function -> `if c: A; return` followed by B (guard-clause style)."""
+    def visit_FunctionDef(self, f):
+        self.generic_visit(f)
+        if any(isinstance(n, (ast.Yield, ast.YieldFrom)) for n in ast.walk(f)):
+            return f
+        last = f.body[-1] if f.body else None
+        if isinstance(last, ast.If) and last.orelse and not (len(last.orelse) == 1 and isinstance(last.orelse[0], ast.If)):
+            body = list(last.body)
+            if not isinstance(body[-1], (ast.Return, ast.Raise)):
+                body.append(ast.Return(value=None))
+            f.body = f.body[:-1] + [ast.If(test=last.test, body=body, orelse=[])] + list(last.orelse)
+        return f
+
+
 class RenameLocals(ast.NodeTransformer):
     """Rename function-local variables that are plain assignment targets (not params, not nonlocal/global, not
     captured by nested functions) by appending a suffix."""
@@ -208,6 +223,8 @@ def transform(root, kind):
                 tree = InvertIf().visit(tree)
             elif kind == "rename":
                 tree = RenameLocals().visit(tree)
+            elif kind == "earlyreturn":
+                tree = EarlyReturn().visit(tree)
             elif kind == "extractcond":
                 tree = ExtractCond().visit(tree)
             elif kind == "cellify":
@@ -233,7 +250,7 @@ def transform(root, kind):
 def main():
     kinds = [a for a in sys.argv[1:] if not a.startswith("--")] or ["all"]
     if kinds == ["all"]:
-        kinds = ["unparse", "flipcmp", "invertif", "rename", "rename2", "rename3", "extractcond", "cellify"]
+        kinds = ["unparse", "flipcmp", "invertif", "rename", "rename2", "rename3", "extractcond", "cellify", "earlyreturn"]
     bad = 0
     for kind in kinds:
         tmp = tempfile.mkdtemp(prefix="rxsa_rf_")
